@@ -1,10 +1,11 @@
+import os
 subs=[("idle","stepIdle",True),("begin","stepBegin",False),("commit","stepCommit",False),("abort","stepAbort",False),("after","stepAfter",True),("use","stepUse",False),("sess","stepSess",False),("close","stepClose",False),("exp","stepExp",False)]
 pcname={"idle":".idle","after":".after"}
 out='''/-
   Lungo.Proofs.ConcNamed — the positions recorded in `done` / `before` are the end positions of
   actual commit records (links the real-time bookkeeping to `commitLog`).  Generated mechanically.
 -/
-import Lungo.Proofs.ConcLogAll
+import Lungo.Proofs.ConcLog2
 namespace Lungo.Conc
 
 /-- `p = (tid, end position)` of some record of the commit log -/
@@ -46,44 +47,35 @@ theorem ninv_{name} {{s s' : State}} {{a : ActorId}} {{c : Choice}} (bnd : Bnd s
   conc_split hs
   all_goals (
     refine ⟨fun p hp => ?_, fun b => ?_, fun t ht p hp => ?_, fun r hr p hp => ?_⟩
-    · have := n0 p
-      clear n0 n1 n2 n3
-      (try log2_simp_at hp); grind [Named.mono, Named.last]
-    · have := n1 b
+    · first
+      | exact n0 p hp
+      | (have := n0 p
+         clear n0 n1 n2 n3
+         (try log2_simp_at hp); grind [Named.mono, Named.last])
+    · have hn1b := n1 b
       clear n1 n2 n3
       by_cases hba : b = a
       · subst hba; (try log2_simp); grind [Named.mono, Named.last]
       · have hab : ¬ a = b := fun h => hba h.symm
         try simp only [State.put, State.putS, State.finish, State.write, upd_apply, if_neg hba, if_neg hab]
-        (try log2_simp); grind [Named.mono, Named.last]
-    · have := n2 t
-      clear n0 n1 n2 n3
-      (try log2_simp_at ht)
-      (try log2_simp_at hp); grind [Named.mono, Named.last]
-    · have := n3 r
-      have := n2
-      clear n0 n1 n2 n3
-      (try log2_simp_at hr)
-      (try log2_simp_at hp); grind [Named.mono, Named.last])
+        first
+        | exact hn1b
+        | ((try log2_simp); grind [Named.mono, Named.last])
+    · first
+      | exact n2 t ht p hp
+      | (have := n2 t
+         clear n0 n1 n2 n3
+         (try log2_simp_at ht)
+         (try log2_simp_at hp); grind [Named.mono, Named.last])
+    · first
+      | exact n3 r hr p hp
+      | (have := n3 r
+         have := n2
+         clear n0 n1 n2 n3
+         (try log2_simp_at hr)
+         (try log2_simp_at hp); grind [Named.mono, Named.last]))
 '''
 out+='''
-theorem ninv_reachable {n : Nat} {s : State} (h : Reachable n s) : Ninv s := by
-  induction h with
-  | init => exact ninv_init n
-  | step hr hs ih =>
-    have bd := (inv_reachable hr).2.bnd
-    have lv := linv_reachable hr
-    rcases step_cases hs with ⟨hp, h'⟩ | h' | h' | h' | ⟨hp, h'⟩ | h' | h' | h' | h'
-    · exact ninv_idle bd lv ih hp h'
-    · exact ninv_begin bd lv ih h'
-    · exact ninv_commit bd lv ih h'
-    · exact ninv_abort bd lv ih h'
-    · exact ninv_after bd lv ih hp h'
-    · exact ninv_use bd lv ih h'
-    · exact ninv_sess bd lv ih h'
-    · exact ninv_close bd lv ih h'
-    · exact ninv_exp bd lv ih h'
-
 end Lungo.Conc
 '''
-open('/root/wt/a4/lean/Lungo/Proofs/ConcNamed.lean','w').write(out)
+open(os.path.join(os.path.dirname(os.path.abspath(__file__)),'..','Lungo','Proofs')+'/ConcNamed.lean','w').write(out)
